@@ -280,3 +280,59 @@ Proof.
   - rewrite parse_absolute by assumption. reflexivity.
   - f_equal. apply parse_to_str. exact (join_wf cwd "HDR.json" Wc).
 Qed.
+
+(* ------------------------------------------------------------------ HIP-RA-X *)
+Lemma hip_files_absolute pkg a pin pout : wf_abs pin = true -> wf_abs pout = true ->
+  hip_files pkg [a; to_str pin; to_str pout] = {| h_input := to_str pin; h_report := to_str pout |}.
+Proof. intros Wi Wo. unfold hip_files. cbn [nth nth_error]. now rewrite !absolute_fixed. Qed.
+
+Lemma hip_entry_points_agree (hrun : string -> hsim) cwd pkg pkg' pin pout :
+  wf_abs pin = true -> wf_abs pout = true ->
+  hip_script hrun cwd pkg (to_str pin) (Some (to_str pout)) true = hip_client hrun pkg' (to_str pin) (to_str pout) true
+  /\ (forall rep, hrun (fs_canon (to_str pin)) = HOk rep ->
+        hip_script hrun cwd pkg (to_str pin) (Some (to_str pout)) true
+        = {| ho_raises := false; ho_report_at := Some (to_str pout); ho_text := Some rep |}).
+Proof.
+  intros Wi Wo. unfold hip_script, hip_client, hip_main. rewrite !hip_files_absolute by assumption. cbn [h_input h_report].
+  split; [destruct (hrun (fs_canon (to_str pin))); reflexivity|]. intros rep ->. reflexivity.
+Qed.
+
+Lemma hip_script_paths cwd cwd' pkg inp out dir_ok (hrun : string -> hsim) :
+  wf_abs (parse pkg) = true ->
+  hip_script hrun cwd pkg inp out dir_ok = hip_script hrun cwd' pkg inp out dir_ok
+  /\ parse (h_input (hip_files pkg [""; inp])) = join (parse pkg) (parse inp)
+  /\ parse (h_report (hip_files pkg [""; inp])) = {| p_root := p_root (parse pkg); p_parts := (p_parts (parse pkg) ++ ["HIP.out"])%list |}
+  /\ (forall o, parse (h_report (hip_files pkg [""; inp; o])) = join (parse pkg) (parse o)).
+Proof.
+  intros W. split; [reflexivity|]. unfold hip_files. cbn [nth nth_error h_input h_report]. repeat split.
+  - now apply parse_absolute.
+  - rewrite parse_absolute by assumption. reflexivity.
+  - intros o. now apply parse_absolute.
+Qed.
+
+Lemma hip_requested_path_counterexample :
+  exists cwd pkg inp out, wf_abs (parse cwd) = true /\ wf_abs (parse pkg) = true /\ is_abs (parse inp) = false /\
+    h_input (hip_files pkg [""; inp; out]) <> absolute cwd inp /\ h_report (hip_files pkg [""; inp; out]) <> absolute cwd out
+    /\ h_input (hip_files pkg [""; inp; out]) = "/pkg/in.txt".
+Proof. exists "/w", "/pkg", "in.txt", "out.txt". repeat split; vm_compute; congruence. Qed.
+
+Lemma hip_exit_status (hrun : string -> hsim) cwd pkg inp out dir_ok :
+  (hrun (fs_canon (h_input (hip_files pkg ("" :: inp :: match out with Some o => [o] | None => [] end)))) = HFail ->
+     hip_status (hip_script hrun cwd pkg inp out dir_ok) <> 0%Z /\ ho_report_at (hip_script hrun cwd pkg inp out dir_ok) = None)
+  /\ (forall rep, hrun (fs_canon (h_input (hip_files pkg ("" :: inp :: match out with Some o => [o] | None => [] end)))) = HOk rep ->
+        dir_ok = true ->
+        hip_status (hip_script hrun cwd pkg inp out dir_ok) = 0%Z
+        /\ ho_report_at (hip_script hrun cwd pkg inp out dir_ok)
+           = Some (h_report (hip_files pkg ("" :: inp :: match out with Some o => [o] | None => [] end)))
+        /\ ho_text (hip_script hrun cwd pkg inp out dir_ok) = Some rep).
+Proof.
+  unfold hip_script, hip_main, hip_status. split.
+  - intros ->. split; cbn; [discriminate | reflexivity].
+  - intros rep -> ->. repeat split.
+Qed.
+
+Lemma hip_exit_counterexample :
+  exists (hrun : string -> hsim), forall cwd pkg inp out,
+    hip_status (hip_script hrun cwd pkg inp out false) = 0%Z /\ ho_report_at (hip_script hrun cwd pkg inp out false) = None
+    /\ ho_raises (hip_client hrun pkg inp "/tmp/r.out" false) = true.
+Proof. exists (fun _ => HOk "report"). intros. repeat split. Qed.
